@@ -184,6 +184,44 @@ def store_paths(repo: Repo, rep, P: str):
 
 
 # ------------------------------------------------------------------------------------ R3 / R4
+def strict_only_raise(repo: Repo):
+    """raise_or_warn_controller_value_validation: (verdict, text) — 'ok' when the strict branch (flag true) always raises
+    ControllerValueError and the lenient branch never raises; 'bad' when recognisably otherwise; 'unknown' else."""
+    from .. import inline
+    from ..guards import canon
+    h = repo.func("rv.errors", "raise_or_warn_controller_value_validation")
+    body, _ = inline._eliminate_returns([b for b in h.body if not (isinstance(b, ast.Expr) and isinstance(b.value, ast.Constant))], None)
+    FLAG = "RAISE_CONTROLLER_VALUE_ERRORS"
+
+    def raises(stmts) -> List[ast.Raise]:
+        return [x for st in stmts for x in ast.walk(st) if isinstance(x, ast.Raise)]
+    from ..packed import subst_locals
+    for b in body:
+        if isinstance(b, ast.If):
+            b.test = subst_locals(h, b.test)
+    ifs = [b for b in body if isinstance(b, ast.If) and FLAG in norm(b.test)]
+    if len(ifs) != 1:
+        return "unknown", f"{len(ifs)} tests of the flag", h
+    i = body.index(ifs[0])
+    t = canon(ifs[0].test)
+    rest = body[i + 1:]
+    if t == FLAG:
+        strict, lenient = ifs[0].body, ifs[0].orelse + rest
+    elif t == f"not ({FLAG})":
+        strict, lenient = ifs[0].orelse + rest, ifs[0].body
+    else:
+        return "unknown", f"test {t}", h
+    if raises(body[:i]):
+        return "bad", "raises before the flag is consulted", h
+    sr = raises(strict)
+    last_strict = strict[-1] if strict else None
+    if not sr or not isinstance(last_strict, ast.Raise) or last_strict.exc is None or "ControllerValueError" not in norm(last_strict.exc):
+        return "bad", "in strict mode an out-of-range value must raise ControllerValueError", h
+    if raises(lenient):
+        return "bad", "the lenient branch raises as well", h
+    return "ok", f"if {t}: …  strict → {norm(last_strict)[:60]}; lenient → no raise", h
+
+
 def _raise_sites(repo: Repo, ci, fn: ast.FunctionDef, guards: List[str], depth: int):
     """[(node, exception class name or None, guards)] for every `raise` in fn and in the self-helpers it calls."""
     out = []
@@ -277,15 +315,15 @@ def validation_rules(repo: Repo, rep, P: str):
         else:
             rep.violation(f"{P}.R3", construct, v.text(), "a failed range validation is no longer turned into ControllerValueError", f"{rel}:{v.lineno}")
     # strict mode raises ControllerValueError from the original
-    h = repo.func("rv.errors", "raise_or_warn_controller_value_validation")
-    body = [s for s in h.body if not (isinstance(s, ast.Expr) and isinstance(s.value, ast.Constant))]
-    first = body[0] if body else None
-    if isinstance(first, ast.If) and norm(first.test) == "RAISE_CONTROLLER_VALUE_ERRORS" and first.body and isinstance(first.body[0], ast.Raise) \
-            and "ControllerValueError" in norm(first.body[0].exc):
-        rep.ok(f"{P}.R3", "src/python/rv/errors.py:raise_or_warn_controller_value_validation", norm(first.body[0]), "strict mode raises the library's controller-value error")
+    verdict, text, h = strict_only_raise(repo)
+    hcon = "src/python/rv/errors.py:raise_or_warn_controller_value_validation"
+    if verdict == "ok":
+        rep.ok(f"{P}.R3", hcon, text, "strict mode raises the library's controller-value error")
+    elif verdict == "bad":
+        rep.violation(f"{P}.R3", hcon, norm(h)[:160], f"in strict mode an out-of-range value must raise ControllerValueError ({text})",
+                      f"src/python/rv/errors.py:{h.lineno}")
     else:
-        rep.violation(f"{P}.R3", "src/python/rv/errors.py:raise_or_warn_controller_value_validation", norm(h)[:160],
-                      "in strict mode an out-of-range value must raise ControllerValueError", f"src/python/rv/errors.py:{h.lineno}")
+        rep.inconclusive(f"{P}.R3", hcon, norm(h)[:160], f"strict/lenient split not recognised ({text})", f"src/python/rv/errors.py:{h.lineno}")
     try:
         v = repo.fold(repo.module_assign("rv.errors", "RAISE_CONTROLLER_VALUE_ERRORS"))
         if v is True:
